@@ -129,6 +129,12 @@ func (p *parser) BasicParser(urlOrRef string, baseUrl *Url, url *Url, stateOverr
 		url.inputUrl = urlOrRef
 	}
 	url.parser = p
+	if stateOverridden {
+		// A setter cannot return an error: with WithFailOnValidationError a mere validation error must
+		// not abort it half way (e.g. after the path has been emptied). Only failures stop a setter.
+		url.inSetter = true
+		defer func() { url.inSetter = false }()
+	}
 
 	if i, changed := remove(url.inputUrl, ASCIITabOrNewline); changed {
 		if err := p.handleError(url, errors.InvalidURLUnit, false); err != nil {
